@@ -156,9 +156,15 @@ Definition run_op (s : st) (o : sexp) : res st :=
       Ok (fst (alloc s kd (gstr label)))
   | _ => ValueError
   end.
+(* the six traversal generators (Model/Iter.v) of every element of the final state *)
+Definition s_views (s : st) : sexp :=
+  let f := fuel_of s in let h := hp s in
+  slist (fun x => L [slist snat (next_elements f h x); slist snat (previous_elements f h x);
+                     slist snat (next_siblings f h x); slist snat (previous_siblings f h x);
+                     slist snat (parents f h x); slist snat (descendants f h x)]) (seq 0 (nxt s)).
 Fixpoint run_ops (s : st) (ops : list sexp) : list sexp :=
   match ops with
-  | [] => []
+  | [] => [s_views s]
   | o :: ops' =>
       match run_op s o with
       | Ok s' => L [A 0; s_state s'; sbool (consistent_b (nxt s') (hp s'))] :: run_ops s' ops'
